@@ -36,6 +36,8 @@ class SocWorld(World):
                    "hardware_toggle_between_transactions", "write_to_read_only_sram",
                    "abandoned_query", "domain_reset_mid_access")
     assumptions = (
+        "a reset of the clock domain returns the component to its initial state (the state the "
+        "property calls initial is the state after reset, as for every Amaranth register)",
         "Amaranth's Python RTL simulator executes the elaborated netlists faithfully",
         "register values are never modelled: bus-side data is compared with what the leaf's own "
         "element port showed at its strobe, so peripheral semantics (C12-C16) cannot leak in",
